@@ -73,8 +73,8 @@ Definition w_zero_tuple : fsnode :=
 
 Lemma zero_prior_tuple_refuted :
   exists n n', fdict n = Ok n' /\
-    ival_eqb (inst_from_paths float fbin (ftree n') [(["h"; "a"], 0.5%float)])
-             (inst_from_paths float fbin (ftree n) [(["h"; "a"], 0.5%float)]) = false.
+    ival_eqb (inst_from_paths float fbin funop (ftree n') [(["h"; "a"], 0.5%float)])
+             (inst_from_paths float fbin funop (ftree n) [(["h"; "a"], 0.5%float)]) = false.
 Proof. exists w_zero_tuple. eexists. split; [vm_compute; reflexivity|vm_compute; reflexivity]. Qed.
 
 Definition w_zero_extra : fsnode :=
@@ -178,8 +178,8 @@ Proof. split; vm_compute; reflexivity. Qed.
 Lemma zero_prior_next :
   plain_cf float cfg_fixed w_zero_tuple = true /\ plain_cf float cfg_fixed w_zero_extra = true /\
   (exists n', dict_rt float ffalsy cfg_fixed w_zero_tuple = Ok n' /\
-     ival_eqb (inst_from_paths float fbin (ftree n') [(["h"; "a"], 0.5%float)])
-              (inst_from_paths float fbin (ftree w_zero_tuple) [(["h"; "a"], 0.5%float)]) = true) /\
+     ival_eqb (inst_from_paths float fbin funop (ftree n') [(["h"; "a"], 0.5%float)])
+              (inst_from_paths float fbin funop (ftree w_zero_tuple) [(["h"; "a"], 0.5%float)]) = true) /\
   (exists n', dict_rt float ffalsy cfg_fixed w_zero_extra = Ok n' /\
      snode_eqb (smap float (forget_f float) (norm float n')) (smap float (forget_f float) (norm float w_zero_extra)) = true).
 Proof.
